@@ -23,11 +23,13 @@ if git apply "$DIR/patch.diff" 2>/dev/null; then echo "apply: ok"; else echo "ap
 if git diff --name-only | grep -qv '^src/'; then echo "scope: FAILED (touches files outside src/)"; ok=0; else echo "scope: ok (src/ only)"; fi
 if cargo test --offline --quiet --target-dir "$TARGET" >"$TARGET.suite.log" 2>&1; then echo "suite-with-change: pass ($(grep -c 'test result: ok' "$TARGET.suite.log") result lines ok)"; else echo "suite-with-change: FAIL"; ok=0; fi
 mkdir -p tests && cp "$DIR/demo.rs" tests/seed_demo.rs
-if cargo test --offline --quiet --target-dir "$TARGET" --test seed_demo >"$TARGET.demo1.log" 2>&1; then echo "demo-with-change: passes (expected failure) -> NOT a demonstration"; ok=0; else
+# (stdout goes through a pipe: a demo may lower RLIMIT_FSIZE for a child that inherits stdout)
+run_demo() { cargo test --offline --quiet --target-dir "$TARGET" --test seed_demo 2>&1 | cat > "$1"; return "${PIPESTATUS[0]}"; }
+if run_demo "$TARGET.demo1.log"; then echo "demo-with-change: passes (expected failure) -> NOT a demonstration"; ok=0; else
     if grep -q "error\[E\|could not compile" "$TARGET.demo1.log"; then echo "demo-with-change: does not compile"; ok=0; else echo "demo-with-change: fails as required"; fi
 fi
 git checkout -q -- src
-if cargo test --offline --quiet --target-dir "$TARGET" --test seed_demo >"$TARGET.demo2.log" 2>&1; then echo "demo-without-change: passes as required"; else echo "demo-without-change: FAILS"; ok=0; fi
+if run_demo "$TARGET.demo2.log"; then echo "demo-without-change: passes as required"; else echo "demo-without-change: FAILS"; ok=0; fi
 rm -f "$TARGET".*.log
 [ $ok -eq 1 ] && echo "confirmed: yes" || echo "confirmed: NO"
 [ $ok -eq 1 ]
